@@ -81,6 +81,26 @@ CLAIMED = {
    note=TB + "; constants snapped to the simplest rational within half an ulp; integrate_absolute_polynomial box [t0,t1] in [0,1], |A|,|B|,|C|<=1e3 and NRA queries that time out "
         "are reported undecided; bit-precise CBMC lane for the search not built (layer R only).",
    ref="DESIGN 4/C20", technique="symbolic execution of LLVM IR + SMT (z3 NRA/LRA), exact rational definitions"),
+ "C11": dict(
+   text="Bounded symbolic check: cspline_eval_vs/gs and the Jacobians cspline_eval_dg_dvs/dgs executed symbolically (u and all control data symbolic) and decided against "
+        "the definition: value = prod_j expm(Btilde_j(u) hat v_j) with the cumulative basis from its DEFINITION (tail sums of Bernstein / Cox-de Boor polynomials), "
+        "vel/acc/jer = successive u-derivatives by symbolic differentiation of that curve, Jacobians = derivatives with respect to each input direction.",
+   note=TB + "; Vector2d K=1..6 (both bases), double K in {1,3,5}, SO3 K=1, SE2 K=1,2 quick (SO3 K=2 thorough); control-point form on non-commutative groups only through "
+        "differential validation; small-angle paths of the group cases may be undecided.",
+   ref="DESIGN 4/C11", technique="symbolic execution of LLVM IR + symbolic differentiation oracle + SMT"),
+ "C12": dict(
+   text="Bounded symbolic check with an inductive step: Spline<3,double|Vector2d> states are built through a guarded friend hook as ARBITRARY representation-invariant states "
+        "(all times, crop parameters and control velocities symbolic); operator() is decided per region (before / each segment / after) against the definition; crop(ta,tb,"
+        "localize) against the real evaluation of the uncropped spline at ta+s; ConstantVelocity for K=1..5, FixedCubic end conditions, concat_local/global; candidates are "
+        "replayed natively.",
+   note=TB + "; N<=3 segments (crop N<=2 quick); vector-space groups only; arclength not encoded; obligations on paths the solver can neither refute nor prove are undecided.",
+   ref="DESIGN 4/C12", technique="symbolic execution of LLVM IR from arbitrary invariant states (inductive step) + SMT"),
+ "C13": dict(
+   text="Bounded symbolic check: BSpline<K,double|Vector2d>::operator() with symbolic t0, dt>0, control points and evaluation time (interval index obtained by forking the "
+        "float-to-int truncation over all admissible integers); on every knot interval value/vel/acc must equal the uniform B-spline from the Cox-de Boor recursion, end values "
+        "outside the range, t_min/t_max formulas.",
+   note=TB + "; K=1..3 quick, ..6 thorough; N=K+1..K+3 control points; vector-space groups; rounding of the compile-time basis constants is absorbed by a tolerance box.",
+   ref="DESIGN 4/C13", technique="symbolic execution of LLVM IR (fptosi forked by solver enumeration) + SMT"),
 }
 NA = {}
 checks = []
@@ -105,7 +125,7 @@ m = {
  "version": 1,
  "setup_cmd": "./setup.sh",
  "hooks": {"guard": "PETTNI_SMOOTH_VERIF", "enable": "harness TUs are compiled with -DPETTNI_SMOOTH_VERIF (clang-14 for IR, g++ for the native twin)",
-           "baseline_off_cmd": "./baseline_off.sh", "source_commits": [], "add_only": True},
+           "baseline_off_cmd": "./baseline_off.sh", "source_commits": ["f7f7557"], "add_only": True},
  "engines": [{"name": "symx", "path": "/verif/symx", "serves_properties": sorted(CLAIMED),
               "kind_free_text": "symbolic interpreter for LLVM IR of the real templates (concrete control/pointers, symbolic reals) + z3 obligations + native replay"}],
  "checks": checks,
